@@ -147,6 +147,14 @@ pub mod concrete {
 
     /// calls `f` on every hand of the families until it returns an error text
     pub fn families<const N: usize>(mut f: impl FnMut([u32; N]) -> Option<&'static str>) {
+        families_12::<N>(&mut f);
+        let failed = crate::sym::native::ST.with(|s| !s.borrow().failed.is_empty());
+        if !failed {
+            deep_suit::<N>(&mut f);
+        }
+    }
+
+    fn families_12<const N: usize>(f: &mut impl FnMut([u32; N]) -> Option<&'static str>) {
         let mut report = |w: [u32; N], msg: &'static str| {
             crate::sym::native::note(format!("{} :: {}", msg, describe(&w)));
             crate::sym::native::fail(msg);
@@ -202,6 +210,41 @@ pub mod concrete {
                         report(hand, msg);
                         return;
                     }
+                }
+            }
+        }
+    }
+
+    /// family 3: a deep-suit deck (ten spades A K 9..2 plus A 9 5 2 of hearts): six or seven cards of one suit with
+    /// straight flushes below the top suited card
+    pub fn deep_suit<const N: usize>(mut f: impl FnMut([u32; N]) -> Option<&'static str>) {
+        let mut deck = [0u32; 14];
+        let spades = [12u32, 11, 7, 6, 5, 4, 3, 2, 1, 0];
+        for (i, r) in spades.iter().enumerate() {
+            deck[i] = word(*r, 3);
+        }
+        for (i, r) in [12u32, 7, 3, 0].iter().enumerate() {
+            deck[10 + i] = word(*r, 2);
+        }
+        for m in 0u32..(1 << 14) {
+            if m.count_ones() as usize != N {
+                continue;
+            }
+            let mut w = [0u32; N];
+            let mut k = 0;
+            for i in 0..14 {
+                if (m >> i) & 1 == 1 {
+                    w[k] = deck[i];
+                    k += 1;
+                }
+            }
+            let mut rev = w;
+            rev.reverse();
+            for hand in [w, rev] {
+                if let Some(msg) = f(hand) {
+                    crate::sym::native::note(format!("{} :: {}", msg, describe(&hand)));
+                    crate::sym::native::fail(msg);
+                    return;
                 }
             }
         }
@@ -395,4 +438,109 @@ pub fn c09_six_vs_five() {
         None
     });
     cover!(v6 < Five::from(drop_one::<6, 5>(&w, 5)).hand_rank_value(), "the sixth card improves the hand");
+}
+
+/// HISTORY — ranking is a function of the hand: after every ranking entry point has been exercised on one hand,
+/// ranking ANOTHER hand gives that hand's own value (no memo, cache or other hidden state leaks between calls).
+/// Solver side: the primitive is an arbitrary function of the hand (wiring stub with two expectations), so any
+/// state kept above it is exposed; native side: the reference is the best five-card value over all subsets, and a
+/// family of all ordered pairs of six/seven-card hands from a small two-suit pool is run as well.
+macro_rules! history {
+    ($name:ident, $ty:ty, $n:expr, $stub:path, $unw:expr, $pool:expr) => {
+        #[cfg_attr(kani, kani::proof)]
+        #[cfg_attr(kani, kani::unwind($unw))]
+        #[cfg_attr(kani, kani::stub(<$ty as ckc_rs::cards::HandRanker>::hand_rank_value_and_hand, $stub))]
+        pub fn $name() {
+            let c0 = any_seven();
+            let c1 = any_seven();
+            let mut w0 = [0u32; $n];
+            let mut w1 = [0u32; $n];
+            let mut i = 0;
+            while i < $n {
+                w0[i] = c0[i];
+                w1[i] = c1[i];
+                i += 1;
+            }
+            let fv0 = sym::u16();
+            let fv1 = sym::u16();
+            sym::assume(fv0 >= 1 && fv0 <= 7462 && fv1 >= 1 && fv1 <= 7462);
+            crate::wiring::expect2(&w0, fv0, [w0[0], w0[1], w0[2], w0[3], w0[4]], &w1, fv1, [w1[0], w1[1], w1[2], w1[3], w1[4]]);
+            let (h0, h1) = (<$ty>::from(w0), <$ty>::from(w1));
+            // exercise every entry point on the first hand
+            let _ = h0.hand_rank_value();
+            let _ = h0.hand_rank_value_and_hand();
+            let _ = h0.hand_rank_value_validated();
+            let _ = h0.hand_rank();
+            // the second hand must be ranked from its own cards
+            #[cfg(kani)]
+            let want = if sym::same(w0, w1) { fv0 } else { fv1 };
+            #[cfg(not(kani))]
+            let want = history_reference(&w1);
+            check!(h1.hand_rank_value() == want, "hand_rank_value after ranking another hand is the hand's own value");
+            check!(h1.hand_rank_value_and_hand().0 == want, "hand_rank_value_and_hand after ranking another hand");
+            check!(h1.hand_rank_value_validated() == want, "hand_rank_value_validated after ranking another hand");
+            check!(h1.hand_rank().value == want, "hand_rank after ranking another hand");
+            #[cfg(not(kani))]
+            history_family::<$n>($pool, |a| {
+                let h = <$ty>::from(a);
+                [h.hand_rank_value(), h.hand_rank_value_and_hand().0, h.hand_rank_value_validated(), h.hand_rank().value]
+            });
+            cover!(!sym::same(w0, w1) && fv0 != fv1, "two different hands with different values");
+            cover!((w0[0] ^ w0[1] ^ w0[2] ^ w0[3] ^ w0[4] ^ w0[5]) == (w1[0] ^ w1[1] ^ w1[2] ^ w1[3] ^ w1[4] ^ w1[5]) && !sym::same(w0, w1), "different hands with the same XOR signature");
+        }
+    };
+}
+history!(c02_six_history, ckc_rs::cards::six::Six, 6, crate::wiring::stub_six, 9, 10);
+history!(c02_seven_history, ckc_rs::cards::seven::Seven, 7, crate::wiring::stub_seven, 9, 11);
+
+#[cfg(not(kani))]
+fn history_reference<const N: usize>(w: &[u32; N]) -> u16 {
+    let mut best = u16::MAX;
+    for m in 0usize..(1 << N) {
+        if m.count_ones() == 5 {
+            best = best.min(concrete::five_value(subset(w, m)));
+        }
+    }
+    best
+}
+
+/// all ordered pairs (x, y) of N-card hands from a pool of `pool` cards (spades A..; hearts A K Q J): rank x through
+/// every entry point, then y, and compare y's results with the subset reference
+#[cfg(not(kani))]
+fn history_family<const N: usize>(pool: usize, rank: impl Fn([u32; N]) -> [u16; 4]) {
+    let mut deck = Vec::new();
+    for r in 0..(pool - 4) {
+        deck.push(word(12 - r as u32, 3));
+    }
+    for r in 0..4 {
+        deck.push(word(12 - r as u32, 2));
+    }
+    let mut hands: Vec<[u32; N]> = Vec::new();
+    for m in 0u32..(1 << pool) {
+        if m.count_ones() as usize == N {
+            let mut w = [0u32; N];
+            let mut k = 0;
+            for i in 0..pool {
+                if (m >> i) & 1 == 1 {
+                    w[k] = deck[i];
+                    k += 1;
+                }
+            }
+            hands.push(w);
+        }
+    }
+    let refs: Vec<u16> = hands.iter().map(|h| history_reference(h)).collect();
+    for x in hands.iter() {
+        for (j, y) in hands.iter().enumerate() {
+            let _ = rank(*x);
+            let got = rank(*y);
+            if got.iter().any(|v| *v != refs[j]) {
+                use ckc_rs::PokerCard;
+                let d = |w: &[u32; N]| w.iter().map(|c| format!("{}{}", c.get_rank_char(), c.get_suit_letter())).collect::<Vec<_>>().join(" ");
+                crate::sym::native::note(format!("after ranking [{}], ranking [{}] gives {:?}, its own value is {}", d(x), d(y), got, refs[j]));
+                crate::sym::native::fail("history family on the real code: a hand's value depends on what was ranked before it");
+                return;
+            }
+        }
+    }
 }
